@@ -69,8 +69,12 @@ pub trait H {
     fn via_b(&self, v: u64) -> &ValB {
         self.req_b(v)
     }
+    /// a required method with a `&mut self` receiver ...
+    fn req_mut(&mut self) -> u64;
+    /// ... called by the default body of a provided `&mut self` method: the body runs on the delegation helper and reaches the
+    /// mock again through AsMut<Unimock>
     fn touch(&mut self) -> u64 {
-        7
+        self.req_mut()
     }
     /// the same through a pinned receiver (DelegateToDefaultImpl for Pin<&mut Unimock>)
     fn touch_pin(self: std::pin::Pin<&mut Self>) -> u64 {
@@ -96,11 +100,14 @@ fn new_original() -> Unimock {
         HMock::req_b.each_call(matching!(_)).answers(&|u, v| u.make_ref(ValB::new(v))),
         HMock::bor.each_call(matching!()).returns(ValA::new(4242)),
         HMock::probe.each_call(matching!()).answers(&|_| live() as u64),
+        HMock::req_mut.each_call(matching!()).returns(7u64),
     ));
     // verification is not what this harness is about: both clauses are used once up front (through a short-lived
     // clone, whose chain takes the two values with it) so that the original's teardown has nothing to report
     let c = u.clone();
     let _ = (H::req_a(&c, 0).0, H::req_b(&c, 0).0, H::bor(&c).0, H::probe(&c));
+    let mut c = c;
+    let _ = H::req_mut(&mut c);
     drop(c);
     u
 }
@@ -237,8 +244,8 @@ fn run_seq(t: &mut std::str::SplitWhitespace, out: &mut impl Write) {
     let mut unwinding: Vec<u8> = vec![];      // how the instance finally goes: 0 dropped, 1 dropped while unwinding, 2 verify()
     for _ in 0..n {
         let kind = t.next().unwrap();
-        unwinding.push(if kind == "O" || kind == "C" { 1 } else if kind == "v" { 2 } else { 0 });
-        let kind = if kind == "v" { "o".to_string() } else { kind.to_lowercase() };
+        unwinding.push(if kind == "O" || kind == "C" { 1 } else if kind == "v" { 2 } else if kind == "R" { 3 } else { 0 });
+        let kind = if kind == "v" || kind == "R" { "o".to_string() } else { kind.to_lowercase() };
         let kind = kind.as_str();
         let nops: usize = t.next().unwrap().parse().unwrap();
         let ops: Vec<Op> = (0..nops).map(|_| parse_op(t.next().unwrap())).collect();
@@ -262,6 +269,13 @@ fn run_seq(t: &mut std::str::SplitWhitespace, out: &mut impl Write) {
             2 => {
                 if std::panic::catch_unwind(std::panic::AssertUnwindSafe(move || u.verify())).is_err() {
                     writeln!(out, "verify panicked").unwrap();
+                }
+            }
+            3 => {
+                // the original is ended by Termination::report()
+                use std::process::Termination;
+                if std::panic::catch_unwind(std::panic::AssertUnwindSafe(move || u.report())).is_err() {
+                    writeln!(out, "report panicked").unwrap();
                 }
             }
             _ => drop(u),
